@@ -357,7 +357,7 @@ func init() {
 		Assumptions: []string{
 			"sequential levels: process death only (no tail cuts): file-system calls are atomic and durable in issue order; the racing level also cuts unsynced tails",
 			"remove-all is additionally expanded into every subset of already removed entries (<= 6 entries) without changing what the real call does",
-			"Standard I/O (DataFileSize 130 and 64) and MMap (64, histories one shorter)",
+			"Standard I/O (DataFileSize 130 and 64) and MMap (64, histories one shorter); B-tree and skip-list index under DataFileSize 64 (histories one shorter)",
 		},
 		Tasks: func(tier string) []Task {
 			d, b := 3, 2
@@ -377,6 +377,16 @@ func init() {
 			}
 			for l := 1; l <= d-1; l++ {
 				levels = append(levels, seqLevel{Name: fmt.Sprintf("mmap-history-len%d-nest%d", l, c07Nesting), Cfgs: []Cfg{mm}, Keys: keysAB, Alpha: c07Alphabet, Depth: l, Dev: b, Run: runC07, MaxViols: 1})
+			}
+			// the ordered index types keep the key slice they are handed (the hash map copies it into a string): the
+			// index built by the adopting Open - from the hint file, and again by every crashed-and-retried adoption - under
+			// B-tree and skip list, every record in its own file (the hint alone speaks for all merged files but the last)
+			for _, ix := range []int8{1, 2} {
+				oc := c64
+				oc.Index = ix
+				for l := 1; l <= d-1; l++ {
+					levels = append(levels, seqLevel{Name: fmt.Sprintf("ordered-index-history-len%d-nest%d", l, c07Nesting), Cfgs: []Cfg{oc}, Keys: keysAB, Alpha: c07Alphabet, Depth: l, Dev: b, Run: runC07, MaxViols: 1})
+				}
 			}
 			tasks := seqTasks("C07", levels)
 			pb := 3
